@@ -200,7 +200,7 @@ def run(ctx):
                          "key": key})
 
     # ---- class 1: shapes
-    n_shape = 240 if quick else 3000
+    n_shape = 400 if quick else 3000
     hooked = [64, 257, 4096]
     for i in range(n_shape):
         r = rng.fork("shape%d" % i)
